@@ -1,17 +1,68 @@
 package main
 
 import (
+	"fmt"
+	"go/types"
+
 	"golang.org/x/tools/go/ssa"
 )
 
+// Channel semantics (DESIGN §2.5): sound for safety, silent on progress. A receive yields an unconstrained
+// value; a completed send increments the ghost counter $chsends of the channel; a select fires exactly one of
+// its cases (or none, when it has a default).
+
+func (fr *Frame) chanSend(c *blockCtx, ch Term, cond string) {
+	g := fr.g
+	if _, ok := g.W.ghosts["$chsends"]; !ok {
+		return
+	}
+	cur := g.getGhost(c.st, "$chsends", ch.S)
+	g.setGhost(c.st, "$chsends", ch.S, ite(cond, "(+ "+cur.S+" 1)", cur.S))
+}
+
 func (fr *Frame) execSend(ins *ssa.Send, c *blockCtx) {
-	fr.g.fail("channel send not supported yet (%s)", funcKey(fr.fn))
+	ch := fr.val(ins.Chan)
+	fr.safety("nilchan", c.reach, not(eq(ch.S, "Nil")), ins)
+	fr.chanSend(c, ch, "true")
+	fr.g.blockingOps = append(fr.g.blockingOps, fmt.Sprintf("%s: bare send on %s", funcKey(fr.fn), ins.Chan.Name()))
 }
 
 func (fr *Frame) execRecv(ins *ssa.UnOp, c *blockCtx) {
-	fr.g.fail("channel receive not supported yet (%s)", funcKey(fr.fn))
+	g := fr.g
+	et := ins.X.Type().Underlying().(*types.Chan).Elem()
+	v := g.sc.Fresh("recv", g.sortOf(et))
+	g.sc.Assume(g.typeInv(v.S, et))
+	g.assumeOld(v, g.curBase)
+	if ins.CommaOk {
+		ok := g.sc.Fresh("recvok", SBool)
+		fr.tuples[ins] = []Term{v, ok}
+		return
+	}
+	fr.vals[ins] = v
 }
 
 func (fr *Frame) execSelect(ins *ssa.Select, c *blockCtx) {
-	fr.g.fail("select not supported yet (%s)", funcKey(fr.fn))
+	g := fr.g
+	idx := g.sc.Fresh("selidx", SInt)
+	lo := "0"
+	if !ins.Blocking {
+		lo = "(- 1)"
+	}
+	g.sc.Assume(fmt.Sprintf("(and (<= %s %s) (< %s %d))", lo, idx.S, idx.S, len(ins.States)))
+	res := []Term{idx}
+	recvOk := g.sc.Fresh("selok", SBool)
+	res = append(res, recvOk)
+	for i, st := range ins.States {
+		ch := fr.val(st.Chan)
+		if st.Dir == types.SendOnly {
+			fr.chanSend(c, ch, eq(idx.S, fmt.Sprint(i)))
+			continue
+		}
+		et := st.Chan.Type().Underlying().(*types.Chan).Elem()
+		v := g.sc.Fresh("selrecv", g.sortOf(et))
+		g.sc.Assume(g.typeInv(v.S, et))
+		g.assumeOld(v, g.curBase)
+		res = append(res, v)
+	}
+	fr.tuples[ins] = res
 }
